@@ -61,6 +61,10 @@ CHECKS = {
          "Round trip of every stored blob kind built from generated content (partition segments from columns of every content class with a coverage table of codec ops and section kinds, catalogues with odd names / sub-partitions / cursors, WAL segments) plus enumeration of corruptions: for each stored blob EVERY single-bit flip and EVERY truncation length (blobs <= 600 bytes; fixed stride beyond) and appended suffixes must be rejected by the checksummed loader; at database level a directory with one corrupted file must yield a reported failure, never different rows, never a hang.",
          "DESIGN.md 4 C14", "Payload-level mutations under a recomputed checksum are different valid files and are not judged; decoders are reached through hook H3 re-exports.",
          "property-based generation of blobs (proptest) + exhaustive single-fault enumeration per blob; round-trip and rejection oracles"),
+ "C15": ("exploration",
+         "Generated table names (empty, dots, slashes, `..`, 300 bytes, case pairs, names equal to file names) and column sets from an adversarial pool under sub-partition size limits from 1 byte (one column per file) to unlimited: after ingest, flush and a restart every stored column and absent names sorting before / between / after stored ones are read one by one in generated order and must equal the model or read as NULL; every file must lie under tables/<one directory per table>/, directories are not shared; sanitize_table_name is checked for injectivity, separators, leading dots and length on generated name pairs.",
+         "DESIGN.md 4 C15", "Names containing a double quote are not generated (SQL quoting); private helpers are reached through hook H3 wrappers.",
+         "property-based testing (proptest) against a reference model plus a validity predicate over the directory listing"),
 }
 
 NOT_YET = {
